@@ -13,7 +13,7 @@ package utils
 //@ pred bothKind(a, b, k) = a != nil && b != nil && kind(a.Value) == k && kind(b.Value) == k
 
 //@ func EqualTypedValues
-//@   props C12 C15
+//@   props C12 C15 C09
 //@   pure
 //@   modifies nothing
 //@   ensures nil_only_equals_nil: (v1 == nil || v2 == nil) ==> result == (v1 == nil && v2 == nil)
